@@ -16,6 +16,7 @@ import Ctrmml.Proofs.Seek
 import Ctrmml.Proofs.SeekAlive
 import Ctrmml.Proofs.SeekEnd
 import Ctrmml.Proofs.SeekFrom
+import Ctrmml.Proofs.SeekFlat
 namespace Ctrmml.C12
 open Ctrmml Player PlayerCh
 
@@ -288,6 +289,83 @@ theorem C12_example_from_lands :
     s0.acc.playTime = 3 ∧ s0.ch.lastNote = 2 ∧ isSettled s0 = true ∧
     s.acc.playTime = 6 ∧ s.ch.lastNote = 1 ∧ getCh s.ch Tables.ev_TRANSPOSE = 2 ∧
     s = iter (playTick exSong exRoot pdAll) 7 initPS := by
+  decide +kernel
+
+/-! ## Round 3, part 2: the no-error hypothesis discharged for flat tracks
+
+`Flat root` (Proofs/SeekFlat.lean, decidable): every event of the root track is of control kind
+"other" (not LOOP_START / LOOP_BREAK / LOOP_END / SEGNO / JUMP / END) and is neither PLATFORM nor
+DRUM_MODE -- i.e. NOTE / REST / TIE / NOP and every channel command except drum mode, absolute or
+relative -- and the track has fewer than 100000 events.  The length bound is necessary for the
+MODEL: its inner fetch loop carries a step budget of 100000 and a run of that many zero-length
+events would exhaust it and record the model-only error `fuel`. -/
+
+/-- **A flat track never records an error**, at any number of ticks, for every song and
+platform table (invariant over `pstep` / `settle` / `play_tick`: on the root track, empty stack,
+no loop point, drum mode off, no error, stopped once the position has passed the synthesised END;
+each fetch step advances the position by one, so the step budget is never exhausted). -/
+theorem noerr_of_flat (song : Song) (root : List Event) (pd : Int → Bool) (h : Flat root) (n : Nat) :
+    (iter (playTick song root pd) n initPS).err = none := by
+  have hpt : playTick song root pd = playTickS song root pd := funext (playTick_eq song root pd)
+  rw [hpt]
+  exact (iter_flat song root pd h n initPS (initPS_flat root)).err
+
+/-- **Seeking = playing on flat tracks, NO aliveness or no-error hypothesis**: for every song,
+flat root track, platform table and `n ≥ 1`, `skip_ticks(n)` on a fresh player and `n+1`
+`play_tick()`s agree on `obs` (the whole state while the track is enabled; everything except
+play_time / on_time / off_time once it has ended). -/
+theorem C12_seek_eq_play_flat (song : Song) (root : List Event) (pd : Int → Bool) (h : Flat root)
+    (n : Nat) (hn : n ≥ 1) :
+    obs (skipTicks song root pd n initPS) = obs (iter (playTick song root pd) (n + 1) initPS) :=
+  C12_seek_eq_play_noerr song root pd n hn (noerr_of_flat song root pd h n)
+
+/-- on a flat track, whole-state equality as soon as the track is still enabled after `n` ticks -/
+theorem C12_seek_eq_play_flat_enabled (song : Song) (root : List Event) (pd : Int → Bool) (h : Flat root)
+    (n : Nat) (hn : n ≥ 1) (hen : (iter (playTick song root pd) n initPS).acc.enabled = true) :
+    skipTicks song root pd n initPS = iter (playTick song root pd) (n + 1) initPS :=
+  C12_seek_eq_play_of_alive_last song root pd n hn ⟨hen, noerr_of_flat song root pd h n⟩
+
+/-- flat tracks, seek after playing: after `m+1` ticks with the track still enabled, a seek by
+`n ≥ 1` agrees with `m+1+n` single ticks on `obs` -/
+theorem C12_seek_eq_play_flat_after_play (song : Song) (root : List Event) (pd : Int → Bool) (h : Flat root)
+    (m n : Nat) (hn : n ≥ 1) (hen : (iter (playTick song root pd) (m + 1) initPS).acc.enabled = true) :
+    obs (skipTicks song root pd n (iter (playTick song root pd) (m + 1) initPS))
+      = obs (iter (playTick song root pd) (m + 1 + n) initPS) := by
+  rw [iter_add (playTick song root pd) (m + 1) n initPS]
+  apply C12_seek_eq_play_from_noerr song root pd _ (C12_played_settled song root pd m initPS)
+    ⟨hen, noerr_of_flat song root pd h (m + 1)⟩ n hn
+  rw [← iter_add (playTick song root pd) (m + 1) (n - 1) initPS]
+  exact noerr_of_flat song root pd h _
+
+/-- a flat track: `k+2 c:2:1 v5 r:0:2 ^:1:0 @3 vf+1 e:3:0 t120` -/
+def flatRoot : List Event :=
+  [ { type := Tables.ev_TRANSPOSE_REL, param := 2, on := 0, off := 0 },
+    { type := Tables.ev_NOTE, param := 1, on := 2, off := 1 },
+    { type := Tables.ev_VOL, param := 5, on := 0, off := 0 },
+    { type := Tables.ev_REST, param := 0, on := 0, off := 2 },
+    { type := Tables.ev_TIE, param := 0, on := 1, off := 0 },
+    { type := Tables.ev_INS, param := 3, on := 0, off := 0 },
+    { type := Tables.ev_VOL_FINE_REL, param := 1, on := 0, off := 0 },
+    { type := Tables.ev_NOTE, param := 5, on := 3, off := 0 },
+    { type := Tables.ev_TEMPO_BPM, param := 120, on := 0, off := 0 } ]
+
+theorem flatRoot_flat : Flat flatRoot := by decide
+
+/-- the round-2 example track is not flat (the predicate is not trivially true) -/
+example : ¬ Flat exRoot := by decide
+
+example : obs (skipTicks exSong flatRoot pdAll 5 initPS) = obs (iter (playTick exSong flatRoot pdAll) 6 initPS) :=
+  C12_seek_eq_play_flat exSong flatRoot pdAll flatRoot_flat 5 (by decide)
+
+/-- evaluated: the seek by 5 lands in the TIE (time 5 of 9) with the transpose and the coarse
+volume applied; past the end (seek 12) the track has stopped without error -/
+theorem C12_example_flat_lands :
+    let s := skipTicks exSong flatRoot pdAll 5 initPS
+    s.acc.enabled = true ∧ s.acc.playTime = 5 ∧ s.acc.onTime = 1 ∧ s.core.position = 5 ∧
+    getCh s.ch Tables.ev_TRANSPOSE = 2 ∧ getCh s.ch Tables.ev_VOL_FINE = 5 ∧ s.ch.lastNote = 1 ∧
+    s = iter (playTick exSong flatRoot pdAll) 6 initPS ∧
+    (iter (playTick exSong flatRoot pdAll) 13 initPS).acc.enabled = false ∧
+    (iter (playTick exSong flatRoot pdAll) 13 initPS).err = none := by
   decide +kernel
 
 end Ctrmml.C12
